@@ -257,6 +257,26 @@ PROPS = {
                        "normalize_total, split_aligned, parts_total, encoder_never_panics, process_never_panics; decode_never_panics for any ids "
                        "on any tokenizer. Tied to the code by differential runs of the whole pipeline with overflow checks on.",
     },
+    "C16": {
+        "level": "other",
+        "rule": "REC ops: each of the 22 convertible shipped reference models (6 SentencePiece, 3 Tiktoken, 13 Tokenizers; the emptied files "
+                "cannot be converted) through its explicit converter x every line of the small (20) and mixed (120) corpora and the whole utf8 "
+                "corpus as one text, with the flags of the upstream tests: implementation ids and decoded text, and the Lean model's, against "
+                "the recorded ids and outputs (the whole finite table, every run). IMPLEQ same3: the three Llama 2 sources on 1500 (quick) / "
+                "20000 (thorough) generated texts without special-token strings (corpus lines, single scalars, marker/combining strings, "
+                ">192-unit runs); every 10th also through the model per source. IMPLEQ samedef: SentencePiece conversion = native file apart "
+                "from metadata. Non-trivial: all.",
+        "trusted_base": CORE_TB + ["the recorded files under /repo/tests/data are taken as the reference implementations' outputs",
+                                   "the first half is an evaluation of a finite table by compiled code (implementation and Lean model), not a kernel-checked theorem"],
+        "assumptions": ["the regex pattern \" \" of the Tokenizers normalizer denotes the literal space (oracle-recorded per call in the runs)"],
+        "explanation": "Finite part: all 3102 recorded (model, input) pairs are evaluated on the implementation and on the Lean model each run; "
+                       "any id or byte that differs from the record is reported with that input. For-all part: Lean theorems "
+                       "same_definition_same_tokenizer / same_definition_same_encoding (metadata cannot influence a tokenizer, so the native "
+                       "Llama 2 file and the SentencePiece conversion agree on every input once the check has compared their fields) and "
+                       "marker_normalizations_agree (the two whitespace-marker normalizations give the same text for every input). That the "
+                       "JSON-converted Llama 2 merges identically to the SentencePiece one for every text is a fact about that vocabulary; "
+                       "it is explored by generation only.",
+    },
     "C17": {
         "level": "proof",
         "rule": "LOADF ops (implementation only, every load in a child process so that aborts and stack overflows are observed): "
